@@ -38,7 +38,8 @@ class C15(Spec):
     def corpus(self):
         return ["K 1 1 600 l e", "K 1 1 600 l,a a", "K 1 2 600 n,a a,a", "K 1 1 600 l,l,a,l,a a,e",
                 "K 2 2 600 n,l,a,b,c,n,a,a e,e,a", "K 1 2 600 x,a a,x", "K 1 8 0 a,b,c,d -",
-                "K 1 1 600 h a", "K 1 2 600 h,h,a,a a,e,a"]
+                "K 1 1 600 h a", "K 1 2 600 h,h,a,a a,e,a",
+                "K 1 2 1900 g,g,a -", "K 1 1 2500 g a"]
 
     def gen(self, rng, tier):
         cases = list(self.corpus())
@@ -72,7 +73,7 @@ class C15(Spec):
                 return "request %d was fulfilled with the response to request %s (%s)" % (i, o[1:], case)
             if o == "P":
                 return "request %d (%s) was never settled (%s)" % (i, b, case)
-            if b in "adbcex" and o != "F%d" % i:
+            if b in "adbcexg" and o != "F%d" % i:
                 return "request %d was answered by the server but its promise was %s (%s)" % (i, o, case)
             if b in "nlh" and int(t[3]) > 0 and o != "R":
                 return "request %d was not answered within its time-out but its promise was %s (%s)" % (i, o, case)
